@@ -14,6 +14,8 @@ as an Arrow IPC stream (after undoing the response Content-Encoding with the cod
 dispatched call (observed through a log written by the service itself) is answered 200; on 200 the
 ``X-VGI-RPC-Error`` marker is present exactly when the body carries an EXCEPTION batch, and — for
 requests without defects — exactly when the generated behaviour raises.
+
+Wrong Content-Types include near misses of the Arrow stream type (shared prefix / suffix / subtype tree).
 """
 
 from __future__ import annotations
